@@ -52,20 +52,20 @@ ENGINES.append({'name': 'ptxw', 'path': 'engine/ptxw', 'serves_properties': ['C2
 for _id,_what in (('C03','forward transform equals the DFT'),('C04','inverse transform equals the inverse DFT'),('C05','extendPol equals the low-degree extension on 7<w_Next>')):
     CHECKS[_id] = {
         'engine': 'cfgx',
-        'technique': 'exhaustive enumeration of the configuration space (domain, size, columns, phases, blocks, buffer, destination aliasing, threads) x complete impulse basis, closed-form oracle',
-        'text': 'Every configuration in the cross product of object domain D<=32 (thorough 128), size n<=D including 0, column counts {0,1,2,3,5}, all phase values 0..log2 D+2 and 2^64-1, block counts {0,1,2,3,ncols,ncols+1,2^64-1}, scratch buffer or NULL, destination = source/other/NULL and constructor thread counts is executed on the real object with the complete impulse basis in every column plus a dense non-canonical input, on exact-size guard-page arrays; '+_what+' by comparison with a closed-form kernel. Linearity makes the basis sufficient for all inputs.',
+        'technique': 'exhaustive enumeration of the configuration space (domain incl. non-powers of two, size, columns, phases, blocks, buffer, destination aliasing, threads, prior call on the object) x complete impulse basis, closed-form oracle; exhaustive obligations on the bit-reversal helper; large sizes with boundary impulses',
+        'text': 'Every configuration in the cross product of object domain D<=32 (thorough 128), size n<=D including 0, column counts {0,1,2,3,5}, all phase values 0..log2 D+2 and 2^64-1, block counts {0,1,2,3,ncols,ncols+1,2^64-1}, scratch buffer or NULL, destination = source/other/NULL and constructor thread counts is executed on the real object with the complete impulse basis in every column plus a dense non-canonical input, on exact-size guard-page arrays; '+_what+' by comparison with a closed-form kernel. Linearity makes the basis sufficient for all inputs. Also: objects constructed with non-power-of-two domains, the same call after another call on the object, sizes 2^13..2^16 (thorough 2^20) with impulse columns checked on every output row, and the bit-reversal helper BR(x,d) for every d=1..32 on all 1- and 2-bit patterns and all x<2^12.',
         'note': 'Linearity rests on C01 and on the absence of data-dependent control flow in the transform code. Sizes above the bound are not run; all schedule shapes (pass counts, clamping, parity, block remainders) occur below it. Thread schedules are C12.',
     }
 CHECKS['C16'] = {
     'engine': 'ovl',
-    'technique': 'exhaustive enumeration over the overload catalogue x stride/index configurations x tag and boundary value passes, exact write/read sets',
-    'text': 'All 159 live batched/AVX2/AVX-512 overloads of the cubic-extension add/sub/mul/copy families are extracted from the header on every run, given a spec by rule (exceptions listed), and each is called on every combination of strides {0,1,3,5,1000}, six index-array shapes and 122 value passes (tags making every position distinct, boundary values rotated through every position); element k of the result is compared with the scalar extension operation in the output layout, the result arena must be untouched elsewhere, and an ASan build with exact poisoned blocks bounds the reads.',
-    'note': 'Spec rule is the harness author\'s reading of names/parameters; results never alias inputs; colliding output lanes not enumerated; values from a boundary alphabet (lane arithmetic is C02/C11/C09).',
+    'technique': 'exhaustive enumeration over the overload catalogue x stride/index configurations x alias forms x tag and boundary value passes, exact write/read sets',
+    'text': 'All 159 live batched/AVX2/AVX-512 overloads of the cubic-extension add/sub/mul/copy families are extracted from the header on every run, given a spec by rule (exceptions listed), and each is called on every combination of strides {0,1,3,5,1000}, six index-array shapes and 122 value passes (tags making every position distinct, boundary values rotated through every position); element k of the result is compared with the scalar extension operation in the output layout, the result arena must be untouched elsewhere, and an ASan build with exact poisoned blocks bounds the reads. 150 alias forms (result object = operand object, both operands one object) are run wherever carrier shapes allow, with the oracle taken from a snapshot of the operands.',
+    'note': 'Spec rule is the harness author\'s reading of names/parameters; memory carriers alias only with identical designated positions (no partial overlap); colliding output lanes not enumerated; values from a boundary alphabet (lane arithmetic is C02/C11/C09).',
 }
 CHECKS['C17'] = {
     'engine': 'ovl',
     'technique': 'exhaustive enumeration over the overload catalogue x stride/index configurations x value passes; parcpy/parSetZero over all sizes and thread arguments in the bound',
-    'text': 'All 160 defined base-field copy/add/sub/mul batch/AVX2/AVX-512 wrappers are catalogued from the headers and exercised as for C16 (lane k = field op on the k-th designated operands, exact write set, ASan-bounded reads). parcpy and parSetZero run for every size in {0..40,63,64,65,1000} and thread argument in {INT_MIN,-1,0,1,2,3,7,64,size,size+1} with sentinel-fenced destinations.',
+    'text': 'All 160 defined base-field copy/add/sub/mul batch/AVX2/AVX-512 wrappers are catalogued from the headers and exercised as for C16 (lane k = field op on the k-th designated operands, exact write set, ASan-bounded reads). 200 alias forms as in C16. parcpy and parSetZero run for every size in {0..40,63,64,65,1000} and thread argument in {INT_MIN,-1,0,1,2,3,7,64,size,size+1} with sentinel-fenced destinations, both at top level and from inside another parallel region (where the runtime grants a single thread).',
     'note': 'add_batch(...,const uint64_t offsets2[4]) is declared but never defined: listed uncovered. Commented-out declarations in the AVX-512 block are not overloads.',
 }
 CHECKS['C20'] = {
@@ -77,8 +77,8 @@ CHECKS['C20'] = {
 
 CHECKS['C19'] = {
     'engine': 'cfgx',
-    'technique': 'explicit-state breadth-first search over call histories on the real object, canonical state key from private fields, differential (fresh object) + closed-form oracle per transition',
-    'text': 'Starting from a freshly constructed object, every call of a 192-call alphabet (NTT/INTT/extendPol x sizes x columns x phases x blocks) is applied from every distinct canonical object state until a BFS level adds no new state; each transition output is compared with a fresh object and with the closed-form oracle; history replay must reproduce the recorded key. The object is destroyed after every explored history.',
+    'technique': 'explicit-state breadth-first search over call histories on the real object (canonical key from private fields) + exhaustive unmerged exploration of all histories up to depth 4 (5) over large calls; differential (fresh object) and closed-form oracles',
+    'text': 'Starting from a freshly constructed object, every call of a 192-call alphabet (NTT/INTT/extendPol x sizes x columns x phases x blocks) is applied from every distinct canonical object state until a BFS level adds no new state; each transition output is compared with a fresh object and with the closed-form oracle; history replay must reproduce the recorded key. Because a key cannot know state that a change adds to the object, all 1554 (thorough 9330) histories up to depth 4 (5) over six large calls (2^12..2^14) are additionally explored without any state merging, the last call of each compared with a fresh object. The object is destroyed after every explored history.',
     'note': 'Key completeness argument in DESIGN §4 C19: results depend on call arguments, constructor tables, (r,r_) and the process-wide default team size only. Objects D in {8 (16,4 thorough)}; larger domains follow the same code paths (C03-C05 cover sizes).',
 }
 
@@ -104,8 +104,8 @@ CHECKS['C15'] = {
 ENGINES.append({'name': 'teamsched', 'path': 'engine/teamsched', 'serves_properties': ['C12'], 'kind_free_text': 'own OpenMP runtime (GOMP_parallel/omp_*), exact per-member access recorder fed by compile-only -fsanitize=thread instrumentation and wrapped mem*/malloc, serial-order and coroutine-based preemption-bounded schedulers; pthread stand-in for a free-running ThreadSanitizer pass'})
 CHECKS['C12'] = {
     'engine': 'teamsched',
-    'technique': 'exhaustive member orders with per-region access-set conflict check (partial-order reduction) + preemption-bounded (<=2, thorough <=3) exhaustive interleaving exploration per region under a controlled scheduler + free-running ThreadSanitizer',
-    'text': 'The library objects are linked against an own OpenMP runtime that decides which team member runs. Every scenario (transforms, extension, Merkle builders incl. batched and AVX-512, parcpy/parSetZero) is executed for every team size and every member order with exact per-member read/write sets: no two members may conflict in any region and the output must be bit-identical to the single-member run. On the small scenarios every interleaving with at most two preemptions at element granularity is explored region by region, with the end-of-region memory state compared to the default schedule. The same bodies run with real threads under ThreadSanitizer.',
+    'technique': 'exhaustive member orders with per-region access-set conflict check (partial-order reduction) + granted-team clamping (runtime grants fewer threads than requested) + preemption-bounded (<=2, thorough <=3) exhaustive interleaving exploration per region under a controlled scheduler + free-running ThreadSanitizer with a re-entrancy battery',
+    'text': 'The library objects are linked against an own OpenMP runtime that decides which team member runs. Every scenario (transforms, extension, Merkle builders incl. batched and AVX-512, parcpy/parSetZero) is executed for every team size and every member order with exact per-member read/write sets: no two members may conflict in any region and the output must be bit-identical to the single-member run. On the small scenarios every interleaving with at most two preemptions at element granularity is explored region by region, with the end-of-region memory state compared to the default schedule. Every scenario is also run with the granted team clamped to 1, 2 and 3 members (num_threads is an upper bound). The same bodies run with real threads under ThreadSanitizer, followed by a battery of concurrent callers of the static scalar/hash functions whose results must equal their sequential runs.',
     'note': 'Sequential consistency assumed; instrumented accesses are what gcc -fsanitize=thread emits with mem* builtins disabled plus wrapped mem* calls. The first region of NTT_iters runs with the process-wide default team (omp_set_num_threads is called after it), which the runtime models.',
 }
 
